@@ -24,12 +24,18 @@ TrEval == /\ IsOp("Eval")
           /\ Clause("finite_nonnegative", Ev[l].finite /\ Ev[l].nonneg)
           /\ Clause("value_is_reference_definition",
                     \E i \in 1..Len(Ev[l].cand) : <<Ev[l].cand[i][1], Ev[l].cand[i][2]>> \in AbsSet(CaseOf(Ev[l])))
+(* the public entry point for the measure without restraints, called on a calculator built with any restraint list *)
+TrEvalPlain == /\ IsOp("EvalPlain")
+               /\ Clause("finite_nonnegative", Ev[l].finite /\ Ev[l].nonneg)
+               /\ Clause("unrestrained_entry_point_is_the_measure_without_restraints",
+                         \E i \in 1..Len(Ev[l].cand) :
+                             <<Ev[l].cand[i][1], Ev[l].cand[i][2]>> \in AbsSet([CaseOf(Ev[l]) EXCEPT !.restr = <<>>]))
 (* generic floats: invariance of the value under a common rigid motion / consistent relabelling *)
 TrInv == /\ IsOp("Inv")
          /\ Clause("rigid_motion_invariant", Ev[l].rigid)
          /\ Clause("relabelling_invariant", Ev[l].relabel)
          /\ Clause("restraint_count_independent", Ev[l].paths)
-TraceNext == TrEval \/ TrInv
+TraceNext == TrEval \/ TrEvalPlain \/ TrInv
 TraceSpec == TraceInit /\ [][TraceNext]_<<vars, tid, l>>
 Accepted == (l = Len(Ev) + 1) => PrintT(<<"ACC", Traces[tid].tid>>)
 =============================================================================
